@@ -309,6 +309,53 @@ pub fn run_check(replay: Option<Value>) -> i32 {
             }
         }
     }
+    // a right-hand side that is not a number at isolated times (sin(x - p)/(x - p) at x = p): with steps pinned at
+    // max_step = 0.25 from 0, p = 0.8 is the abscissa 0.2 into the fourth step (one of DOP853's dense stages), p = 0.75
+    // a step end, p = 0.875 a midpoint.  Whatever a solver does about the rejected attempt, no accepted step exceeds max_step
+    for m in M6 {
+        for (pi, pp) in [0.8, 0.75, 0.875, 0.5 + 0.25 * 0.1, 0.5 + 0.25 * (7.0 / 9.0)].iter().enumerate() {
+            for backward in [false, true] {
+                let key = format!("sinc:{}:{}:{}", mname(m), pi, backward as u8);
+                if only.as_ref().map(|o| *o != key).unwrap_or(false) {
+                    continue;
+                }
+                let pp = *pp;
+                let sg = if backward { -1.0 } else { 1.0 };
+                let p = Prob {
+                    name: format!("y'=sin(x-p)/(x-p), p={}", pp * sg),
+                    n: 1,
+                    f: std::sync::Arc::new(move |t, _y, d| d[0] = sg * (sg * t - pp).sin() / (sg * t - pp)),
+                    jac: Some(std::sync::Arc::new(|_t, _y| vec![0.0])),
+                    flow: None,
+                    y0: vec![0.0],
+                    linear_homogeneous: false,
+                };
+                let mut c = Cfg::new(m, 0.0, 2.0 * sg, &p.y0).tol(1e-6, 1e-8);
+                c.user_jac = true;
+                c.max_step = Some(0.25);
+                c.first_step = Some(0.25 * sg);
+                let r = run_lowlevel(&p, &c, &[], &[], None, false);
+                rep.evaluations += 1;
+                rep.transitions += r.st.n_ode;
+                *rep.tags.entry("rhs-not-a-number-at-a-point".into()).or_insert(0) += 1;
+                let mut worst: (f64, usize) = (0.0, 0);
+                for j in 1..r.recs.len() {
+                    let h = (r.recs[j].x - r.recs[j - 1].x).abs();
+                    if h > worst.0 {
+                        worst = (h, j);
+                    }
+                }
+                rep.validated += r.recs.len() as u64;
+                if worst.0 > 0.25 * 1.01 + 1e-12 {
+                    rep.violations.push(
+                        Violation::new(&key, "max-step", format!("{} on {}: accepted step {} has length {:e} > max_step 0.25 (run ended with {})", mname(m), p.name, worst.1, worst.0, r.outcome_name()), json!({"key": key}))
+                            .with("method", mname(m))
+                            .with("backward", backward),
+                    );
+                }
+            }
+        }
+    }
     // no budget given means no budget: runs of more than 12 000 steps (max_step = span/12000) go through, and a
     // budget of 13 000 gives the same run
     for m in M6 {
